@@ -11,8 +11,8 @@
 (*     the supplied keys, Candidate(priority, specificity tuple, tiebreak),*)
 (*     sort by (priority, sum of levels, tiebreak) descending - ties stay  *)
 (*     in set-iteration order, here the nondeterministic choice sigma -    *)
-(*     then _pull: a rank is the best remaining candidate plus everything  *)
-(*     it does not dominate.                                               *)
+(*     then _pull: successive ranks of candidates no other remaining       *)
+(*     candidate dominates (dominance is decided on the declared types).   *)
 (*  MultiTypeMap.resolve / __missing__ : rank 1 single => run it, several  *)
 (*     => "Ambiguous"; continuation (m, T) => the rank after the one m is  *)
 (*     in; m not a candidate => fresh lookup; otherwise "No method".       *)
@@ -111,16 +111,24 @@ SpecOfL(LV, m, call) ==
      IF p <= Len(call.pos) THEN LV[p][m.pos[p]]
      ELSE LV[p][m.kwt[KwIdx(m, call.kwn[p - Len(call.pos)])]]]
 
+DeclTypes(m, call) ==
+  [p \in 1..(Len(call.pos) + Len(call.kwn)) |->
+     IF p <= Len(call.pos) THEN m.pos[p] ELSE m.kwt[KwIdx(m, call.kwn[p - Len(call.pos)])]]
+
 CandL(LV, M, m, call) ==
-  [m |-> m.id, prio |-> m.prio, spec |-> SpecOfL(LV, m, call), tb |-> Tiebreak(M, m)]
+  [m |-> m.id, prio |-> m.prio, spec |-> SpecOfL(LV, m, call), tb |-> Tiebreak(M, m), types |-> DeclTypes(m, call)]
 
 SpecOf(W, M, m, call) == SpecOfL(FreshLV(W, M, call), m, call)
 Cand(W, M, m, call) == CandL(FreshLV(W, M, call), M, m, call)
 
-Dominates(a, b) ==
-  IF a.prio > b.prio THEN TRUE
-  ELSE IF a.spec # b.spec THEN \A p \in DOMAIN a.spec : a.spec[p] >= b.spec[p]
-  ELSE a.tb > b.tb
+(* Candidate.dominates: priority first; then the *declared types* are compared with typeorder *)
+(* (the integer levels are only used as a sort key): all positions SAME -> the tiebreak      *)
+(* decides, otherwise every position must be LESS or SAME.  DomW needs the world.            *)
+DomW(W, a, b) ==
+  IF a.prio # b.prio THEN a.prio > b.prio
+  ELSE LET os == {ImplOrderT(W, a.types[p], b.types[p]) : p \in DOMAIN a.types} IN
+       IF os \subseteq {"SAME"} THEN a.tb > b.tb
+       ELSE os \subseteq {"LESS", "SAME"}
 
 KeyOf(c) == <<c.prio, SumSeq(c.spec), c.tb>>
 KeyGE(a, b) ==
@@ -136,20 +144,20 @@ AllSorted(S) ==
   ELSE LET top == {c \in S : \A d \in S : KeyGE(c, d)} IN
        UNION {{<<c>> \o r : r \in AllSorted(S \ {c})} : c \in top}
 
-RECURSIVE Pull(_, _)
-Pull(L, P) ==
-  LET L2 == SelectSeq(L, LAMBDA c : c \notin P) IN
-  IF L2 = <<>> THEN <<>>
-  ELSE LET c1   == Head(L2)
-           rest == Tail(L2)
-           nd   == SelectSeq(rest, LAMBDA c2 : ~Dominates(c1, c2))
-       IN <<(<<c1>> \o nd)>> \o Pull(rest, P \cup Range(nd))
+(* _pull: successive ranks = the remaining candidates that no other remaining candidate *)
+(* dominates, in list order                                                              *)
+RECURSIVE PullW(_, _)
+PullW(W, L) ==
+  IF L = <<>> THEN <<>>
+  ELSE LET und == SelectSeq(L, LAMBDA c : \A j \in DOMAIN L : L[j] = c \/ ~(DomW(W, L[j], c) /\ ~DomW(W, c, L[j])))
+           rank == IF und = <<>> THEN L ELSE und
+       IN <<rank>> \o PullW(W, SelectSeq(L, LAMBDA c : \A j \in DOMAIN rank : rank[j] # c))
 
 CandSetL(W, M, call, LV) ==
   {CandL(LV, M, m, call) : m \in {x \in ImplCandidates(W, M, call) :
       \A p \in 1..(Len(call.pos) + Len(call.kwn)) :
          (IF p <= Len(call.pos) THEN x.pos[p] ELSE x.kwt[KwIdx(x, call.kwn[p - Len(call.pos)])]) \in DOMAIN LV[p]}}
-RankListsL(W, M, call, LV) == {Pull(L, {}) : L \in AllSorted(CandSetL(W, M, call, LV))}
+RankListsL(W, M, call, LV) == {PullW(W, L) : L \in AllSorted(CandSetL(W, M, call, LV))}
 CandSet(W, M, call) == CandSetL(W, M, call, FreshLV(W, M, call))
 RankLists(W, M, call) == RankListsL(W, M, call, FreshLV(W, M, call))
 
